@@ -385,7 +385,7 @@ func checkC05(c *Ctx) {
 	rules := map[string]bool{"TV-compile": true, "TV-determ": true, "TV-fields": true, "TV-shred": true, "TV-asm": true}
 	programs, cases, typeErr, genFail := emitTV(r, res, rules, nil)
 	checkGenMapRanges(c)
-	withTC(c, "TV-driver", func(c2 *Ctx) { runTVDriver(c2, "TV-driver") })
+	withTC(c, "TV-driver", nil, func(c2 *Ctx) { runTVDriver(c2, "TV-driver") })
 	r.Explanation = "Translation validation of parquetgen's output, program by program over the bounded struct grammar (" + desc + "): each struct is fed to the working tree's parquetgen; the generated file must parse and type-check against today's runtime (TV-compile), be reproduced byte for byte by a second run (TV-determ), list the struct's columns one to one in Fields() (TV-fields); every column's shredder is abstractly interpreted into a decision tree over nil/empty tests and compared with the canonical Dremel shredder computed from the struct's go/types description (TV-shred); every column's assembler is checked case by case (def, rep) against the required effect — no clobber of nodes materialised earlier, no dangling access, exact creation, right indices, coverage and value counting (TV-asm). Each obligation covers ALL record values of its shape; the quantifier over shapes is discharged by enumeration."
 	r.Extra["programs"] = programs
 	r.Extra["disagreements_checked"] = cases
@@ -420,7 +420,11 @@ func checkC03(c *Ctx) {
 	r.count("TV/programs", programs)
 	r.floor("TV/programs", 400, "quick tier corpus size")
 	// the levels of a row group are those of its own records only if Write re-initialises the per-batch column state
-	withTC(c, "WH-reset", func(c2 *Ctx) { runWHReset(c2, "WH-reset") })
+	withTC(c, "WH-reset", []string{"overlap"}, func(c2 *Ctx) {
+		runWHReset(c2, "WH-reset")
+		// definition and repetition levels live in separate slices that cannot grow into each other
+		laOverlap(c2, "LA-overlap")
+	})
 	r.assume("RepetitionTypes.MaxDef/MaxRep and bits.Len arithmetic at run time, and the RLE bytes (C07), are not decided here")
 }
 
@@ -720,8 +724,8 @@ func programColumns(text []byte) string {
 // withTC runs a rule that needs the instantiated template-coverage packages (G_tc) in a second universe. If those
 // packages cannot be generated or do not type-check, that is itself a finding of the corpus properties (the generator
 // emits broken code for a documented struct), reported as such rather than as a checker failure.
-func withTC(c *Ctx, rule string, f func(c2 *Ctx)) {
-	u2, err := loadUniverse(LoadOpts{TC: true, SSA: true})
+func withTC(c *Ctx, rule string, controls []string, f func(c2 *Ctx)) {
+	u2, err := loadUniverse(LoadOpts{TC: true, SSA: true, Controls: controls})
 	if err != nil {
 		c.R.bad("TV-compile", "template-coverage structs (alltypes, doc, person, excluded)", "", "parquetgen output for the template-coverage structs cannot be analysed: "+oneLine(err.Error()))
 		return
